@@ -175,6 +175,10 @@ class GeminiClient:
         # Parse URL to get host and port
         parsed = parse_url(url)
 
+        # The request line carries the normalized URL, which can be one byte
+        # longer than the URL given (an empty path becomes "/")
+        validate_url(parsed.normalized)
+
         # Get event loop
         loop = asyncio.get_running_loop()
 
